@@ -114,7 +114,7 @@ instance : HasBad HaltSt := ⟨HaltSt.bad⟩
 def haltStep (m : HaltSt) : Item → HaltSt
   | .ev (.start _) => { m with halted := false, saved := m.halted }
   | .ob .raisedRestart => { m with halted := m.saved }
-  | .ob (.procRet (.err k _)) => if k == .cancelled then m else { m with halted := true }
+  | .ob (.procRet (.err _ _)) => { m with halted := true }
   | .ev (.procErr _ _) => { m with halted := true }
   | .ob (.proc _) => if m.halted then { m with bad := true } else m
   | _ => m
